@@ -7,6 +7,7 @@ import os
 import shutil
 import struct
 import threading
+import time
 
 from vf import common, trace
 
@@ -521,20 +522,44 @@ def setup(chk, want_emu=False):
     build = common.repo_build("hook")
     ctx.build = build
     hd = os.path.join(common.BUILD, "harness")
-    hx = os.path.join(hd, "rtbuf_drv-" + build.tree)
+    os.makedirs(hd, exist_ok=True)
+    # Private copy of the artefacts this check runs (libovni.so*, ovniemu): the shared build cache
+    # prunes old builds while other checks run, which must not pull the library from under a run.
+    art = os.path.join(hd, "rtbuf-art-" + build.tree)
+    if not os.path.exists(os.path.join(art, ".ok")):
+        tmp = art + ".tmp%d" % os.getpid()
+        shutil.rmtree(tmp, ignore_errors=True)
+        os.makedirs(tmp)
+        for f in os.listdir(build.libdir):
+            if f.startswith("libovni.so"):
+                shutil.copy(os.path.join(build.libdir, f), os.path.join(tmp, f))
+        shutil.copy(build.tool("ovniemu"), os.path.join(tmp, "ovniemu"))
+        open(os.path.join(tmp, ".ok"), "w").write("ok\n")
+        try:
+            os.rename(tmp, art)
+        except OSError:
+            shutil.rmtree(tmp, ignore_errors=True)      # somebody else made it meanwhile
+    now = time.time()
+    for f in os.listdir(hd):
+        pth = os.path.join(hd, f)
+        if (f.startswith("rtbuf-art-") or f.startswith("rtbuf_drv-")) and build.tree not in f:
+            try:
+                if now - os.path.getmtime(pth) > 3 * 3600:
+                    shutil.rmtree(pth, ignore_errors=True) if os.path.isdir(pth) else os.remove(pth)
+            except OSError:
+                pass
+    os.utime(art, None)
+
+    class Art:
+        def tool(self, name):
+            return os.path.join(art, name)
+    ctx.art = Art()
     src = os.path.join(common.VERIF, "harness", "rtbuf_drv.c")
     sig = hashlib.md5(open(src, "rb").read()).hexdigest()[:8]
-    hx = hx + "-" + sig
+    hx = os.path.join(hd, "rtbuf_drv-%s-%s-a" % (build.tree, sig))
     if not os.path.exists(hx):
-        if os.path.isdir(hd):
-            for f in os.listdir(hd):
-                if f.startswith("rtbuf_drv-"):
-                    try:
-                        os.remove(os.path.join(hd, f))
-                    except OSError:
-                        pass
         tmp = hx + ".tmp%d" % os.getpid()
-        common.cc_harness(tmp, [src], build, extra=["-L" + build.libdir, "-lovni", "-Wl,-rpath," + build.libdir])
+        common.cc_harness(tmp, [src], build, extra=["-L" + art, "-lovni", "-Wl,-rpath," + art])
         os.replace(tmp, hx)
     ctx.hx = hx
     ctx.oracle = None
